@@ -106,19 +106,26 @@ def regroup (api : EvalApi) : List (List (TName × Bool) × Expr) → List TName
       | [] => regroup api rest (variables, values)
     else regroup api rest (variables, values)
 
+def tnames (ns : List TName) : List String := ns.map fun | .mk n _ => n
+
+def distinctNames : List String → Bool
+  | [] => true
+  | n :: rest => !rest.contains n && distinctNames rest
+
 /-- what stands in place of `local ns = vs` given the usage flags; `none` = removed -/
 def rewriteLocal (api : EvalApi) (kind : LocalKind) (ns : List TName) (vs : List Expr) (usages : List Bool) : Option Stmt :=
   if usages.all (!·) then
     let values := vs.filter api.hasSideEffects
     if values.isEmpty then none else some (exprsAsStatement values)
-  else if usages.any (!·) then
+  else if usages.any (!·) && distinctNames (tnames ns) then
+    -- (fix of F27: a declaration with a repeated name is not regrouped)
     let pairs := ns.zip usages
     let assignments : List (List (TName × Bool) × Expr) := (pairs.map fun p => [p]).zip vs
     let length := assignments.length
     let remaining := pairs.drop length
     let (assignments', unassigned) : List (List (TName × Bool) × Expr) × List TName :=
       match assignments.getLast? with
-      | none => (assignments, [])
+      | none => (assignments, (pairs.filter (·.2)).map (·.1))   -- (fix of F26: no value at all)
       | some (last, value) =>
         if api.canReturnMultiple value then (assignments.dropLast ++ [(last ++ remaining, value)], [])
         else (assignments, (remaining.filter (·.2)).map (·.1))
@@ -128,8 +135,6 @@ def rewriteLocal (api : EvalApi) (kind : LocalKind) (ns : List TName) (vs : List
       if extra.isEmpty then none else some (exprsAsStatement extra)
     else some (.localAssign .loc variables (values ++ vs.drop length))
   else some (.localAssign kind ns vs)
-
-def tnames (ns : List TName) : List String := ns.map fun | .mk n _ => n
 
 /-- names declared by a statement that `process_scope` looks at -/
 def declared : Stmt → List String
@@ -184,17 +189,12 @@ def apply (api : EvalApi) (b : Block) : Block := loop api (b.size + 1) b
 
 * F25: an unused declaration with an effectful non-call value is replaced by a bare
   `local _ = value` in the SAME scope — later reads of a global or outer `_` are captured.
-* F26: `local a, b` WITHOUT values, with some but not all names used, is removed entirely
-  (the `assignments` list is empty, so the used names are never re-declared) — later uses of
-  the removed name resolve to an outer variable or a global.
-* F27: a partially used declaration is regrouped — the trailing variables without a value
-  come FIRST (`remaining_unassigned_variables`); with a repeated name the visible binding changes.
+* F26 (fixed): `local a, b` WITHOUT values, with some but not all names used, used to be removed
+  entirely; the used names are now re-declared.
+* F27 (fixed): regrouping a partially used declaration puts the trailing value-less variables
+  FIRST; with a repeated name that changed the visible binding — such declarations are now kept.
 `H`: on every pass of the rule, no scope contains such a rewrite (F25 only counts when the
 program reads a variable named `_` somewhere). -/
-
-def distinctNames : List String → Bool
-  | [] => true
-  | n :: rest => !rest.contains n && distinctNames rest
 
 def declaresUnderscore : Option Stmt → Bool
   | some (.localAssign _ ns _) => (tnames ns).contains "_"
@@ -211,10 +211,7 @@ def scanStmts (api : EvalApi) (readsUnderscore : Bool) (last : Option Last) (inE
       | none, .localAssign kind ns vs =>
         let usages := (tnames ns).map fun id => isUsedAfter id rest last inExtra
         let r := rewriteLocal api kind ns vs usages
-        if usages.any id && usages.any (!·) && !distinctNames (tnames ns) then
-          some "F27 partially used declaration with a repeated name is regrouped"
-        else if r.isNone && usages.any id then some "F26 declaration of a used variable removed"
-        else if readsUnderscore && declaresUnderscore r && !(tnames ns).contains "_" then
+        if readsUnderscore && declaresUnderscore r && !(tnames ns).contains "_" then
           some "F25 introduces local _ in a scope that reads _"
         else none
       | none, _ => none
